@@ -76,11 +76,17 @@ void h_readlink(void) {
     CANARY("readlink returns");
 }
 /* two-path operations: small two-entry view of the table (both descriptors are directories with paths) */
+#ifndef L1MAX
+#define L1MAX 8
+#endif
+#ifndef L2MAX
+#define L2MAX 8
+#endif
 #define TWO_PROLOGUE \
     ND(unsigned, n); ND(U32, d1); ND(U32, d2); ND(U32, p1); ND(U32, l1); ND(U32, p2); ND(U32, l2); U32 r; char want1[PATH_MAX], want2[PATH_MAX]; int v1, v2; \
     ASSUME(n <= TAB_MAX); mk_table(n, TAB_MAX); mem_init(); \
     ASSUME(d1 < n && d2 < n && (g_kind[d1] == K_PREOPEN || g_kind[d1] == K_DIR) && (g_kind[d2] == K_PREOPEN || g_kind[d2] == K_DIR)); \
-    ASSUME(p1 <= GMEM - 8 && p2 <= GMEM - 8 && l1 <= 8 && l2 <= 8);
+    ASSUME(p1 <= GMEM - L1MAX && p2 <= GMEM - L2MAX && l1 <= L1MAX && l2 <= L2MAX);
 void h_rename(void) {
     TWO_PROLOGUE
     v1 = spec_resolve(g_path[d1], g_data + p1, l1, want1, PATH_MAX); v2 = spec_resolve(g_path[d2], g_data + p2, l2, want2, PATH_MAX); ev_reset();
@@ -102,6 +108,7 @@ void h_symlink(void) {
     old[i] = 0;
     r = wasi_snapshot_preview1__path_symlink(0, p1, l1, d2, p2, l2);
     if (v2 == 0) OBL(r == SW_INVAL && g_ev_calls == 0, "path_symlink: an unresolvable link path yields EINVAL without a host call");
+    if (l1 >= PATH_MAX) OBL(r != SW_SUCCESS && g_ev_calls == 0, "path_symlink: a link target that does not fit PATH_MAX with its terminator is refused without a host call (and without writing past the buffer: bounds checks)");
     if (g_ev_calls >= 1) {
         OBL(g_ev_calls == 1 && g_ev_last == EV_symlink, "path_symlink: one symlink");
         OBL(strncmp(g_ev_path, old, EV_PATHMAX) == 0, "path_symlink: the link target is passed verbatim (not resolved)");
